@@ -52,14 +52,15 @@ PROPERTIES = {
         "level": "exploration",
         "classes": ["MXCSR_CHANGED", "DIGEST_MISMATCH"] + CRASH,
         "rule": HIST_RULE + "; every hash/first/next/last is entered under a generated MXCSR (rounding x FTZ x DAZ x exception masks x sticky flags); "
-                "oracle: MXCSR after single-call hash == MXCSR before, digests == fresh-object model computed under the default environment",
+                "oracle: MXCSR after single-call hash == MXCSR before, digests == fresh-object model computed under the default environment; "
+                "the threads batches run 2-4 simulated threads hashing at the same time (switches at the scheduling points inside a hash), each call under its own MXCSR",
         "assumptions": ["only hash calls are perturbed (the property says nothing about other calls)", "MXCSR is the x86-64 FP control/status word the library touches; x87 control word is not used by the library",
                         "model digests are computed under MXCSR=0x1F80"],
         "expected_probes": ["env_attached", "batch_next", "final_fprc_nonzero"],
         "exhaustive": {"thorough": True},
         "tiers": {
             "quick": [B("small-a", "plain", "small-a", 5000, 30), B("small-b", "plain", "small-b", 1500, 10), B("envscan-sample", "plain", "small-a", 224, 25, mode="envscan"),
-                      B("shipped", "plain", "shipped", 40, 40, workers=8, gate=4)],
+                      B("threads-small-a", "plain", "small-a", 4000, 15, mode="threads"), B("shipped", "plain", "shipped", 40, 40, workers=8, gate=4)],
             "thorough": [B("small-a", "plain", "small-a", 100000, 300), B("small-b", "plain", "small-b", 40000, 120), B("envscan-all-65536", "plain", "small-a", 3584, 600, mode="envscan"),
                          B("shipped", "plain", "shipped", 1000, 360, workers=8, gate=8), B("contract-audit", "assert", "small-a", 3000, 40)],
         },
